@@ -143,6 +143,9 @@ func (fv *FuncVC) translate() (err error) {
 		// captured variables are pointers to cells
 		t := fv.freshWF("fv_"+f.Name(), f.Type())
 		t.Go = f.Type()
+		if t.Sort.Kind == KRef {
+			fv.assert(app(">", t.S, "0"))
+		}
 		fv.vals[f] = Val{T: t}
 		fv.params[f.Name()] = Val{T: t}
 	}
@@ -683,6 +686,9 @@ func (fv *FuncVC) instr1(in ssa.Instruction) {
 		if fv.C != nil && fv.C.Flags["nopanic"] != "" {
 			fv.oblige("nopanic", "", nil, in.Pos(), "false", "explicit panic unreachable")
 		}
+		if fv.C != nil && fv.C.Flags["errorpanic"] != "" && !panicsWithError(in) {
+			fv.oblige("errorpanic", "", nil, in.Pos(), "false", "an explicit panic in the decoder carries an error value (so that it becomes the returned error, not a crash)")
+		}
 	case *ssa.Return:
 		fv.ret(in)
 	case *ssa.If:
@@ -927,6 +933,50 @@ func (fv *FuncVC) makeSlice(in *ssa.MakeSlice) {
 // allocSizeCheck is a hook for the allocation-bound obligation (C17).
 func (fv *FuncVC) allocSizeCheck(n string, pos token.Pos) {
 	if fv.C == nil || fv.C.Flags["allocbound"] == "" {
+		return
+	}
+	if fv.C.Flags["allocbound"] == "scope" {
+		// size <= 64 KiB + 2 * (total length of the sequences in scope): memory stays
+		// proportional to data already held; computed without overflow
+		var lens []string
+		cnt := 0
+		add := func(t Term) {
+			if (t.Sort.Kind == KBytes || t.Sort.Kind == KSlice) && cnt < 16 {
+				lens = append(lens, fv.lenOf(t))
+				cnt++
+			}
+		}
+		for _, prm := range fv.Fn.Params {
+			add(fv.vals[prm].T)
+		}
+		for _, b := range fv.Fn.Blocks {
+			for _, in := range b.Instrs {
+				if v, ok := in.(ssa.Value); ok {
+					if val, done := fv.vals[v]; done && val.LV == nil && len(val.Tuple) == 0 {
+						if _, isCall := in.(*ssa.Call); isCall {
+							add(val.T)
+						}
+					}
+				}
+			}
+		}
+		var goal string
+		if fv.Mode == ModeBV {
+			ext := func(x string) string { return "((_ zero_extend 8) " + x + ")" }
+			sum := "(_ bv0 72)"
+			for _, l := range lens {
+				sum = app("bvadd", sum, ext(l))
+			}
+			bound := app("bvadd", "(_ bv65536 72)", app("bvadd", sum, sum))
+			goal = smtAnd(fv.ile(fv.ilit(0), n), app("bvule", ext(n), bound))
+		} else {
+			sum := "0"
+			for _, l := range lens {
+				sum = app("+", sum, l)
+			}
+			goal = app("<=", n, app("+", "65536", app("*", "2", sum)))
+		}
+		fv.oblige("allocbound", "", nil, pos, goal, "make size is at most 64 KiB plus twice the total length of the byte sequences already held (memory proportional to input)")
 		return
 	}
 	env := fv.newEnv(fv.cur, fv.entry)
@@ -1201,4 +1251,31 @@ func (fv *FuncVC) inheritSeqFacts(dst, src Term, gt types.Type, depth int) {
 			fv.inheritSeqFacts(Term{S: app(sel, dst.S), Sort: si.fsorts[i], Go: f.Type()}, Term{S: app(sel, src.S), Sort: si.fsorts[i], Go: f.Type()}, f.Type(), depth+1)
 		}
 	}
+}
+
+// panicsWithError: the panic operand is statically an error (or a value
+// re-raised from recover()).
+func panicsWithError(p *ssa.Panic) bool {
+	v := p.X
+	for {
+		switch x := v.(type) {
+		case *ssa.MakeInterface:
+			v = x.X
+			continue
+		case *ssa.ChangeInterface:
+			v = x.X
+			continue
+		}
+		break
+	}
+	if c, ok := v.(*ssa.Call); ok {
+		if b, ok := c.Call.Value.(*ssa.Builtin); ok && b.Name() == "recover" {
+			return true
+		}
+	}
+	if ph, ok := v.(*ssa.Phi); ok {
+		_ = ph
+	}
+	errT := types.Universe.Lookup("error").Type().Underlying().(*types.Interface)
+	return types.Implements(v.Type(), errT)
 }
